@@ -70,6 +70,10 @@ def main(driver, gen, names=None):
     d += 'pub fn real_obs(name: &str, t: &Tables) -> Obs {\n    match name {\n'
     for n in disp_names: d += '        "%s" => schemas::%s::real(t),\n' % (n, n)
     d += '        _ => panic!("unknown schema"),\n    }\n}\n'
+    d += 'pub fn real_str_obs(name: &str, input: &str) -> Obs {\n    match name {\n'
+    for n in disp_names:
+        if SCHEMAS[n].deep: d += '        "%s" => schemas::%s::real_str(input),\n' % (n, n)
+    d += '        _ => panic!("not a deep-input schema"),\n    }\n}\n'
     open(os.path.join(gen, 'dispatch.rs'), 'w').write(d)
     k = ''
     for n in disp_names:
